@@ -11,6 +11,7 @@ def run(rep, tier, seed):
     gen_and_replay(rep, wd, exe, "Gen_C07.tla", "C07_d2", {"Depth": 2}, {"Kinds": "ScopeKinds"})
     if tier == "thorough":
         gen_and_replay(rep, wd, exe, "Gen_C07.tla", "C07_d3", {"Depth": 3}, {"Kinds": "CoreKinds"}, timeout=6000)
+    repo_suite_traces(rep, wd)
     rep.exhaustive = True
 
 def replay(path):
